@@ -232,6 +232,10 @@ func Run(c *vk.Ctx) {
 		runGuards(c)
 		return
 	}
+	if c.Sub == "stubs" {
+		runStubs(c)
+		return
+	}
 	if c.Replay != "" {
 		var cs Case
 		c.LoadReplay(&cs)
